@@ -10,10 +10,10 @@ var _ policy.Recipient
 
 // Ghost call log of a Manager: how many deliveries were requested through it and the arguments of
 // the most recent one.  Changed only by the interface contract of Deliver.
-func ghost_ndeliver(m Manager) int                    { panic("ghost") }
-func ghost_dlvFrom(m Manager) *policy.Origin          { panic("ghost") }
-func ghost_dlvRcpts(m Manager) []*policy.Recipient    { panic("ghost") }
-func ghost_dlvContent(m Manager) []byte               { panic("ghost") }
+func ghost_ndeliver(m Manager) int                 { panic("ghost") }
+func ghost_dlvFrom(m Manager) *policy.Origin       { panic("ghost") }
+func ghost_dlvRcpts(m Manager) []*policy.Recipient { panic("ghost") }
+func ghost_dlvContent(m Manager) []byte            { panic("ghost") }
 
 // Exported accessors for contracts in other packages.
 func Ghost_ndeliver(m Manager) int                 { return ghost_ndeliver(m) }
